@@ -80,6 +80,9 @@ def explore(res, scale=1, seed=None):
     # blocks larger than 1 MiB in every compression mode, read back with the library's server-side decoders (direct oracle)
     from lib import colfam
     colfam.run_direct(res, "c02big", 10 * scale, seed, builds=("default",))
+    # what an uncompressed INSERT writes for a block is what WriteBlock + Flush give: string values of 4 KiB .. 1 MiB and
+    # several big buffered pieces in one flush must equal the buffer encoding (C14's family; direct oracle)
+    colfam.run_direct(res, "c14long", 32 * scale, seed, builds=("default",))
     # the streamed-input half of the property ("then the input blocks in order followed by an empty terminator"):
     # the wire of OnInput-driven inserts with reused column memory, parsed by the reference parser, must carry the
     # caller's blocks in order - the C09 family run here with a small budget (oracle texts are about the wire)
